@@ -77,26 +77,15 @@ static void tls_inputs(void) {
 
 /* ---------- enumeration ---------- */
 static int HEAD = 10;
-static const int SEL_D[] = { 0, 1, 2, 3, 4, 5, 6, 7, 8, 9, 12, 19, 20, 22, 26, 28, 30, 0x30, 0x80, 0x81, 0x82, 0x86, 0x87, 0x88, 0xa0, 0xa3, 0xa4, 0xa5, -1 };
-static const int SEL_E[] = { 0, 1, 2, 4, 6, 8, 11, 13, 15, 20, 255 };
-static void call_fn(const c06c_fn *f, const uint8_t *d, size_t n) {
-	switch (f->cls) {
-	case 'A': ((int (*)(FILE *, int, int, const char *, const uint8_t *, size_t))f->fn)(NUL, 0, 0, "x", d, n); vh_evals++; break;
-	case 'B': ((int (*)(FILE *, const uint8_t *, size_t, int, int))f->fn)(NUL, d, n, 0, 0); vh_evals++; break;
-	case 'C': ((int (*)(FILE *, int, int, const uint8_t *, size_t))f->fn)(NUL, 0, 0, d, n); vh_evals++; break;
-	case 'D': for (size_t i = 0; i < sizeof SEL_D / sizeof SEL_D[0]; i++) { ((int (*)(FILE *, int, int, const char *, int, const uint8_t *, size_t))f->fn)(NUL, 0, 0, "x", SEL_D[i], d, n); vh_evals++; } break;
-	case 'E': for (size_t i = 0; i < sizeof SEL_E / sizeof SEL_E[0]; i++) { ((int (*)(FILE *, int, int, int, const uint8_t *, size_t))f->fn)(NUL, 0, 0, SEL_E[i], d, n); vh_evals++; } break;
-	} }
-static void one(const c06c_fn *f, const uint8_t *m, size_t n) { uint8_t *hb = (uint8_t *)malloc(n ? n : 1); memcpy(hb, m, n); call_fn(f, hb, n); free(hb); vh_nontriv++; }
+static void one(const c06c_fn *f, const uint8_t *m, size_t n) { uint8_t *hb = (uint8_t *)malloc(n ? n : 1); memcpy(hb, m, n); f->fn(hb, n); free(hb); vh_nontriv++; }
 static void run_input(const c06c_fn *f, const inp_t *in) { static uint8_t m[20008]; size_t n = in->n; one(f, in->d, n);
 	size_t h = n < (size_t)HEAD ? n : (size_t)HEAD;
 	for (size_t off = 0; off <= h; off++) { size_t o = off < h ? off : (n ? n - 1 : 0); if (off == h && (n <= h)) break; uint8_t v0 = in->d[o]; uint8_t S[6] = { 0x00, 0x7f, 0x80, 0xff, (uint8_t)(v0 ^ 1), (uint8_t)(v0 ^ 0x20) }; for (int k = 0; k < 6; k++) { if (S[k] == v0) continue; memcpy(m, in->d, n); m[o] = S[k]; one(f, m, n); } }
 	for (size_t k = 0; k < h; k++) one(f, in->d, k); if (n > h + 1) one(f, in->d, n - 1); if (n > h + 2) one(f, in->d, n - 2); }
 static void body_c(void) {
-	for (int fi = 0; fi < C06C_NFN; fi++) { char bn[96]; snprintf(bn, sizeof bn, "print-%s", C06C_FN[fi].name); if (!vh_block_begin(bn)) continue; if (vh_deadline_hit()) { vh_capped = 1; continue; }
-		int stride = (C06C_FN[fi].cls == 'D') ? 1 : 1; (void)stride;
+	for (int fi = 0; fi < C06C_NFN; fi++) { char bn[96]; snprintf(bn, sizeof bn, "fn-%s", C06C_FN[fi].name); if (!vh_block_begin(bn)) continue; if (vh_deadline_hit()) { vh_capped = 1; continue; }
 		for (int i = 0; i < NPOOL; i++) { if (!vh_next()) continue; if (vh_deadline_hit()) { vh_capped = 1; break; } run_input(&C06C_FN[fi], &POOL[i]); }
-		vh_sample("{\"function\":\"%s\",\"class\":\"%c\",\"pool\":%d}", C06C_FN[fi].name, C06C_FN[fi].cls, NPOOL); } }
+		vh_sample("{\"function\":\"%s\",\"pool\":%d}", C06C_FN[fi].name, NPOOL); } }
 int main(int argc, char **argv) { vh_init(argc, argv); NUL = fopen("/dev/null", "w"); app_fill(); PSET = (uint64_t *)calloc(PSETCAP, sizeof *PSET); build_seeds(); rich_seeds();
 	const char *e = getenv("C06C_HEAD"); if (e) HEAD = atoi(e);
 	for (int i = 0; i < NSEEDS; i++) { if (SEEDS[i].der) pool_der(SEEDS[i].d, SEEDS[i].n); else if (SEEDS[i].c == c_tlsrec) pool_tls(SEEDS[i].d, SEEDS[i].n); else pool_add(SEEDS[i].d, SEEDS[i].n); } tls_inputs();
